@@ -108,6 +108,8 @@ class RenderNode(Node):
 
             if self.loop and isinstance(val, Sequence) and not isinstance(val, str):
                 context.raise_for_loop_limit(len(val))
+                # Loops inside the partial are nested in this one.
+                ctx.loop_iteration_carry *= len(val)
                 forloop = ForLoop(
                     name=key,
                     it=iter(val),
@@ -170,6 +172,8 @@ class RenderNode(Node):
 
             if self.loop and isinstance(val, Sequence) and not isinstance(val, str):
                 context.raise_for_loop_limit(len(val))
+                # Loops inside the partial are nested in this one.
+                ctx.loop_iteration_carry *= len(val)
                 forloop = ForLoop(
                     name=key,
                     it=iter(val),
